@@ -120,25 +120,27 @@ def step (_ : Unit) (ws : List String) : Unit × String :=
           hosts := hs, outcome := fun n => os.getD n .ok }
         runScn scn c0 (ctx == "p" || ctx == "pd") rp
       | _, _, _, _, _, _ => "bad-op"
-  | ["spec", _kind, idem, a, nh, nreq, released, result] =>
-      match a.toNat?, nh.toNat?, nreq.toNat? with
-      | some sa, some hosts, some n =>
+  | ["spec", _kind, idem, a, nh, nreq, most, released, result] =>
+      match a.toNat?, nh.toNat?, nreq.toNat?, most.toNat? with
+      | some sa, some hosts, some n, some mx =>
         let e := maxExecutions (idem == "1") sa
         if result == "hang" then "reject:no-result"
         else if n > e then s!"reject:too-many-executions:{n}"
         else if n > hosts then s!"reject:more-requests-than-hosts:{n}"
+        -- no retry policy: the shared iterator hands every host out once (C13_shared_iterator)
+        else if mx > 1 then s!"reject:host-used-twice:{mx}"
         else if result == "noconn" then
           -- an execution that found the shared host iterator exhausted completes first
           if e > hosts then "accept" else "reject:noconn-with-hosts-left"
         else if n == 0 then "reject:never-sent"
         else if released != result then s!"reject:not-first-result:{released}:{result}"
         else "accept"
-      | _, _, _ => "bad-op"
-  | ["specr", _kind, pol, a, nh, nreq, result] =>
+      | _, _, _, _ => "bad-op"
+  | ["specr", _kind, pol, a, nh, nreq, most, result] =>
       -- speculative executions sharing the statement's attempt counter: every schedule obeys
       -- `ExecutorConc.budget` (theorem C13_shared_counter_budget)
-      match parsePolicy pol, a.toNat?, nh.toNat?, nreq.toNat? with
-      | some _, some sa, some hosts, some n =>
+      match parsePolicy pol, a.toNat?, nh.toNat?, nreq.toNat?, most.toNat? with
+      | some _, some sa, some hosts, some n, some mx =>
         let e := maxExecutions true sa
         match limitOf pol with
         | none => "bad-op"
@@ -146,9 +148,10 @@ def step (_ : Unit) (ws : List String) : Unit × String :=
           if result == "hang" then "reject:no-result"
           else if n > ExecutorConc.budget lim e then s!"reject:over-shared-budget:{n}>{ExecutorConc.budget lim e}"
           else if nextHostOnly pol && n > hosts then s!"reject:more-requests-than-hosts:{n}"
+          else if nextHostOnly pol && mx > 1 then s!"reject:host-used-twice:{mx}"
           else if result == "ok" then "reject:ok-from-failing-hosts"
           else "accept"
-      | _, _, _, _ => "bad-op"
+      | _, _, _, _, _ => "bad-op"
   | ["kf-d10"] =>
       -- known finding KF-C13-1: the attempts do not depend on idempotence
       let out := doQuery ⟨.query, false⟩ (some (simplePolicy 1)) (fun _ => .err 9) 10 [⟨1, true, true⟩, ⟨2, true, true⟩] 0 0 1
